@@ -84,7 +84,8 @@ def label_value(label, eid, dup):
         return "t%02d" % (eid % 3) if dup else "t%03d" % eid
     if label == "taxa_grp":
         # every fifth entity belongs to a group whose id does not fit a narrow integer dtype
-        return _spell_id(label, 300 + (eid * 7) % 700 if eid % 5 == 4 else (eid * 5) % 3)
+        # (also every second entity created after the initial matrix, whose entities have ids below 6: wider ids arrive later)
+        return _spell_id(label, 300 + (eid * 7) % 700 if (eid % 5 == 4 or (eid >= 6 and eid % 2 == 0)) else (eid * 5) % 3)
     if label == "vrnt_chrgrp":
         return _spell_id(label, (eid * 7) % 3 + 1)
     if label == "vrnt_phypos":
@@ -261,7 +262,7 @@ def program(draw, families):
         steps.append(stp)
     return {"family": famname, "sizes": sizes, "present": present, "dup": draw(st.booleans()), "steps": steps,
             "narrow": draw(st.sampled_from([False, False, True])),
-            "id_scheme": {"taxa_grp": draw(st.sampled_from(["small", "small", "small", "negative", "huge", "edge"])),
+            "id_scheme": {"taxa_grp": draw(st.sampled_from(["small", "small", "small", "small", "negative", "huge", "edge"])),
                           "vrnt_chrgrp": draw(st.sampled_from(["small", "small", "small", "negative", "huge", "edge"]))}}
 
 
@@ -540,6 +541,10 @@ class Harness:
                 ctx.label("insert_group_id_wider_than_receiver_dtype", too_wide)
                 if too_wide and ctx.known("F-C03-f", True):
                     return
+            if op in ("adjoin", "append", "concat") and k == "taxa" and self.present.get("taxa_grp") and getattr(x, "taxa_grp", None) is not None:
+                gvals = [elem_value("taxa_grp", e, self.dup) for e in new]
+                info = numpy.iinfo(x.taxa_grp.dtype)
+                ctx.label("joined_group_id_wider_than_receiver_dtype", any(v is not None and not (info.min <= v <= info.max) for v in gvals))
             if op in ("insert", "incorp"):
                 if stp["idxform"] in ("list", "array") and len(new) > 1:
                     pos = sorted(int(stp["raw"][q] % (n + 1)) for q in range(len(new)))
@@ -892,13 +897,14 @@ _BASE = ["DenseTaxaMatrix", "DenseVariantMatrix", "DenseTraitMatrix"]
 _SQUARE = ["DenseSquareTaxaMatrix", "DenseMolecularCoancestryMatrix", "DenseSquareTaxaTraitMatrix"]
 
 SUBCHECKS = [
-    SubCheck("histories", check_program, program(_CONCRETE), quick=250, thorough=2500, shards_quick=8, shrink_s=30,
+    SubCheck("histories", check_program, program(_CONCRETE), quick=500, thorough=2500, shards_quick=8, shrink_s=30,
              rule="generated program: family in %s, 1..6 entities per labelled axis, each optional label array independently present/absent, "
                   "unique or duplicated labels, 1..8 steps of select/delete/insert/adjoin/concat/append/remove/incorp/reorder/sort/group/ungroup/"
                   "copy on any labelled axis with int/negative/slice/list/array/mask indices and matrix/ndarray operands; after every step: data and "
                   "every label array match the entities' hidden ids, operands unchanged, generic(axis=+/-) == specific, mutating == non-mutating, "
                   "grouped => true partition; non-trivial = >=3 steps incl. a mutating op and a sort/group/reorder, some axis with >=3 entities" % _CONCRETE,
-             required_labels=("grouped_state_checked", "reorder_after_group", "sort_after_append", "absent_optional_array", "single_entity_axis", "dup_labels")),
+             required_labels=("grouped_state_checked", "reorder_after_group", "sort_after_append", "absent_optional_array", "single_entity_axis", "dup_labels",
+                              "joined_group_id_wider_than_receiver_dtype", "id_scheme:taxa_grp=huge", "id_scheme:vrnt_chrgrp=negative")),
     SubCheck("base_classes", check_program, program(_BASE), quick=150, thorough=1500, shards_quick=4, shrink_s=30,
              rule="same program generator on the base classes %s (2-D, one labelled axis)" % _BASE),
     SubCheck("square", check_program, program(_SQUARE), quick=200, thorough=2000, shards_quick=4, shrink_s=30,
